@@ -405,3 +405,13 @@ def run(repo: Repo, rep: Report) -> None:  # noqa: F811
              "in rdflib/plugins/sparql a call that passes two local names which are also parameter names of the resolved callee passes each at its own parameter's position "
              "(ctx/part, a/b, p1/p2 ... have the same types, so the type checker cannot see an exchange)", floor=20)
     argswap.scan(repo, rep, "C04.k-no-swapped-arguments-in-the-evaluator", sorted(m for m in repo.modules if m.startswith("rdflib.plugins.sparql.")))
+
+
+_run_before_borrow = run
+
+
+def run(repo: Repo, rep: Report) -> None:  # noqa: F811
+    _run_before_borrow(repo, rep)
+    from vlib.core import borrow
+
+    borrow(repo, rep, "C04", "C15", ('C15.a',))
